@@ -576,8 +576,23 @@ func c08Builders(c *Ctx) {
 			c.Violated("C08.7", x.name, p.FuncPos(fn), "no Combine call")
 			continue
 		}
-		// every append feeding Combine's argument appends range-element.<field> of p2
+		// every append feeding Combine's argument appends range-element.<field> of p2 (the list may be collected by a
+		// private helper of the package that receives the timeouts)
+		listIn := func(f *ssa.Function) string {
+			if f == fn {
+				return "p2"
+			}
+			for _, cs := range callsIn(fn, false, func(cc *ssa.CallCommon) bool { return calleeIs(cc, f) }) {
+				for i, a := range cs.Common().Args {
+					if fl.K.Key(a) == "p2" {
+						return "p" + itoa(i)
+					}
+				}
+			}
+			return "\x00"
+		}
 		okApp, n := true, 0
+		sliceEnterHelpers, sliceProg = funcPkgPath(fn), p
 		backwardSlice(combine.Call.Args[0], func(v ssa.Value) bool {
 			call, ok := v.(*ssa.Call)
 			if !ok {
@@ -589,9 +604,14 @@ func c08Builders(c *Ctx) {
 			}
 			n++
 			elemOK := false
+			hk := fl.K
+			if call.Parent() != fn {
+				hk = NewKeyer(p, call.Parent())
+			}
+			lp := listIn(call.Parent())
 			storedInto(sliceBase(call.Call.Args[1]), func(e ssa.Value) bool {
-				k := fl.K.Key(e)
-				if strings.HasPrefix(k, "p2[") && strings.HasSuffix(k, "."+kTOMsg+x.field) {
+				k := hk.Key(e)
+				if strings.HasPrefix(k, lp+"[") && strings.HasSuffix(k, "."+kTOMsg+x.field) {
 					elemOK = true
 				}
 				return false
@@ -601,6 +621,7 @@ func c08Builders(c *Ctx) {
 			}
 			return false
 		})
+		sliceEnterHelpers, sliceProg = "", nil
 		// or an indexed fill of a pre-sized slice: sl[i] = p2[i].<field> for the same index i
 		inSlice := map[ssa.Value]bool{}
 		backwardSlice(combine.Call.Args[0], func(v ssa.Value) bool { inSlice[v] = true; return false })
